@@ -26,6 +26,7 @@ func main() {
 		dump := fs.String("dump", "", "dump smt2 into dir")
 		noprune := fs.Bool("noprune", false, "no feasibility pruning")
 		stub := fs.String("stub", "", "from=to[,from=to] contract stubs")
+		params := fs.String("param", "", "k=v[,k=v] concrete scenario parameters")
 		symFrom := fs.Int("from", 0, "symbolic window start")
 		symTo := fs.Int("to", 0, "symbolic window end")
 		policy := fs.String("policy", "", "baseline policy")
@@ -43,6 +44,15 @@ func main() {
 		}
 		spec := HarnessSpec{Name: os.Args[2], Func: os.Args[2], Pkg: *pkg, Int: *intMode, Unwind: *unwind, Steps: *steps, Symbolic: *symb, TimeoutMs: *to, Solver: *solver, NoPrune: *noprune}
 		spec.SymFrom, spec.SymTo, spec.Policy = *symFrom, *symTo, *policy
+		if *params != "" {
+			spec.Params = map[string]int64{}
+			for _, kv := range strings.Split(*params, ",") {
+				p := strings.SplitN(kv, "=", 2)
+				var v int64
+				fmt.Sscan(p[1], &v)
+				spec.Params[p[0]] = v
+			}
+		}
 		if *stub != "" {
 			spec.Stubs = map[string]string{}
 			for _, kv := range strings.Split(*stub, ",") {
